@@ -3,7 +3,7 @@
 # concealment).  They are re-run here so that C09's evidence is produced by its own check.
 import copy
 from proofs import reg_C01
-GROUPS = [copy.deepcopy(g) for g in reg_C01.GROUPS if not g['name'].startswith('has_lbrr')]
+GROUPS = [copy.deepcopy(g) for g in reg_C01.GROUPS if not g['name'].startswith(('has_lbrr', 'proj_matrix'))]
 for g in GROUPS:
     g.pop('prop', None)
 META = dict(reg_C01.META)
